@@ -22,8 +22,8 @@ ASSUMPTIONS = [
     'lifecycle hooks do not raise (C03 covers those)',
 ]
 BUDGET = {
-    'quick': {'enum': ['k1', 'k2', 'self2', 'listener', 'wc1', 'wc2'], 'hyp': 6000, 'shards': 8},
-    'thorough': {'enum': ['k1', 'k2', 'k3', 'k4w', 'self3', 'listener', 'listener2', 'wc1', 'wc2'], 'hyp': 200000, 'shards': 16},
+    'quick': {'enum': ['k1', 'k2', 'self2', 'listener', 'wc1', 'wc2', 'reload'], 'hyp': 6000, 'shards': 8},
+    'thorough': {'enum': ['k1', 'k2', 'k3', 'k4w', 'self3', 'listener', 'listener2', 'wc1', 'wc2', 'reload'], 'hyp': 200000, 'shards': 16},
 }
 
 ALPHABET = [['pause', 'p'], ['play'], ['kill', 'kt'], ['resume', 1], ['cancel']]
@@ -37,9 +37,17 @@ def enumerate_cases(tier, scope):
     if scope in ('k1', 'k2', 'k3'):
         k = int(scope[1])
         max_gap = {1: 8, 2: 6, 3: 4}[k]
-        for name in ('async2', 'wait1', 'chain', 'waitwait', 'failing', 'gated'):
+        for name in ('async2', 'wait1', 'chain', 'waitwait', 'failing', 'gated', 'missing_out'):
             for sched in gen.schedules(ALPHABET, k, max_gap):
                 yield {'program': cat[name], 'schedule': sched, 'tag': f'{scope}:{name}'}
+    elif scope == 'reload':
+        # control requests (in particular cancelling the future) on an instance loaded from a checkpoint
+        for name in ('wait1', 'waitwait', 'gated', 'missing_out'):
+            for pre in ([], [['tick', 1]], [['tick', 3]], [['tick', 1], ['pause', 'p'], ['tick', 2]]):
+                for sched in gen.schedules(ALPHABET, 1, 2):
+                    yield {'program': cat[name], 'schedule': pre + [['reload']] + sched, 'tag': f'reload:{name}'}
+                for sched in gen.schedules(ALPHABET, 2, 1):
+                    yield {'program': cat[name], 'schedule': pre + [['reload']] + sched, 'tag': f'reload:{name}'}
     elif scope == 'k4w':
         for name in ('wait1', 'waitwait', 'async2'):
             for sched in gen.schedules(ALPHABET, 4, 1):
@@ -83,7 +91,7 @@ def enumerate_cases(tier, scope):
 @st.composite
 def _cases(draw, tier):
     prog = draw(gen.programs(max_steps=4 if tier == 'quick' else 6, self_calls=('pause', 'play', 'kill', 'cancel'), soon=True))
-    sched = draw(gen.control_schedules(['pause', 'play', 'kill', 'kill', 'resume', 'cancel', 'open'], max_events=4, max_gap=4))
+    sched = draw(gen.control_schedules(['pause', 'play', 'kill', 'kill', 'resume', 'cancel', 'open', 'reload'], max_events=4, max_gap=4))
     plans = draw(gen.listener_plans(['kill', 'pause', 'play'])) if draw(st.booleans()) else []
     return {'program': prog, 'schedule': sched, 'listener': plans}
 
